@@ -4,6 +4,7 @@ import numpy as np
 from lib import common as C, models as M
 
 GEN = ['BlockFacts', 'MultiplyBasis']
+IMPORTS = ['C03/basis_product', 'C03/mul_den', 'C03/rs_matrix_den', 'C03/rmatmul_den', 'C03/add_den', 'C03/dense_add_den', 'C14/compose_is_block_product', 'C14/apply_is_block_matvec', 'C14/pack_unpack_index']
 TRUSTED = ['the topological sort returns a well-formed evaluation order (C15)', 'JacobianDict compose/update (C14), sparse operator algebra (C03)']
 ASSUMPTIONS = ['the chain-rule theorem is about the abstract forward accumulation; the tie is (a) structural facts extracted from combined_block.py/block.py and '
                '(b) exact correspondence on generated linear contemporaneous models at T=1 (integer coefficients)',
@@ -201,6 +202,43 @@ def check_shift_chains(rng, nmodels):
     return out, n
 
 
+def check_jacdict_block(rng):
+    """a user-supplied linearised block given as a RAGGED JacobianDict (not every output depends on every input; inputs inferred) inside a model:
+    model Jacobian and linear impulse vs the dense chain rule, for every listing order and both key orders of the supplied dict"""
+    from sequence_jacobian import combine, JacobianDict
+    m = M.load()
+    out, n, T = [], 0, 7
+    nr = np.random.default_rng(4)
+    A, B, D = nr.normal(size=(T, T)), nr.normal(size=(T, T)), nr.normal(size=(T, T))
+    rows = {'cc': {'y': A}, 'sv': {'y': B, 'e': D}}
+    base = combine(m.BLOCKS, name='base')
+    ss = base.steady_state(m.CALIB)
+    ref = M.reference_jacobian(base.blocks, ss, ['z', 'e', 'k', 'p'], T + 6)
+    w = lambda o, i: ref[o][i][:T, :T] if i in ref.get(o, {}) else np.zeros((T, T))
+    for order in (['cc', 'sv'], ['sv', 'cc']):
+        jd_ = JacobianDict({o: rows[o] for o in order}, name='userblock')
+        n += 1
+        if set(jd_.inputs) != {'y', 'e'} or set(jd_.outputs) != {'cc', 'sv'}:
+            C.push(out, dict(what='a JacobianDict built from a ragged nested dict does not infer the union of the row inputs', input=dict(kind='jacdict-block', key_order=order), observed=sorted(jd_.inputs),
+                             signature=dict(op='jacdict-inputs')))
+        for perm in (0, 1, 2):
+            blocks = list(m.BLOCKS) + [jd_]
+            blocks = blocks[perm:] + blocks[:perm]
+            n += 1
+            try:
+                model = combine(blocks, name='withuser')
+                ssm = model.steady_state({**m.CALIB, 'cc': 0.0, 'sv': 0.0}) if False else ss
+                J = model.jacobian(ss, ['z', 'e'], ['cc', 'sv'], T=T)
+                exp = {('cc', 'z'): A @ w('y', 'z'), ('cc', 'e'): A @ w('y', 'e'), ('sv', 'z'): B @ w('y', 'z'), ('sv', 'e'): B @ w('y', 'e') + D}
+                bad = [k for k, v in exp.items() if np.abs(M.dense(J.nesteddict.get(k[0], {}).get(k[1], np.zeros((T, T))), T) - v).max() > 1e-9]
+            except Exception as ex:
+                bad = [f'raised {type(ex).__name__}: {ex}']
+            if bad:
+                C.push(out, dict(what='the Jacobian of a model containing a user-supplied ragged JacobianDict block differs from the dense chain rule', input=dict(kind='jacdict-block', key_order=order, rotation=perm, entries=[list(b) if isinstance(b, tuple) else b for b in bad]),
+                                 signature=dict(op='jacdict-block')))
+    return out, n
+
+
 def check_options():
     """options passed per block vs as keywords, and forwarded to every method (needs a block with options: the KS household)"""
     from sequence_jacobian.examples import krusell_smith as ks
@@ -242,7 +280,7 @@ def check_options():
 def oracle(ctx, hints, broken):
     viol, n = [], 0
     deep = ctx['tier'] == 'thorough' or bool(broken)
-    for f in (lambda: check_dag(ctx['rng']), lambda: check_shift_chains(ctx['rng'], 80 if deep else 12), check_options):
+    for f in (lambda: check_dag(ctx['rng']), lambda: check_shift_chains(ctx['rng'], 80 if deep else 12), lambda: check_jacdict_block(ctx['rng']), check_options):
         try:
             v, k = f()
         except Exception as ex:
